@@ -1317,3 +1317,38 @@ where
         .client_set_send_dont_have(false)
         .build())
 }
+
+#[cfg(eigerco_lumina_verif)]
+pub(crate) mod verif_hooks {
+    use super::*;
+
+    /// Same as the `#[cfg(test)]` `P2p::mocked`.
+    pub(crate) fn mocked() -> (P2p, crate::test_utils::MockP2pHandle) {
+        let (cmd_tx, cmd_rx) = mpsc::channel(16);
+        let (peer_tracker_tx, peer_tracker_rx) = watch::channel(PeerTrackerInfo::default());
+
+        let p2p = P2p {
+            cmd_tx: cmd_tx.clone(),
+            cancellation_token: CancellationToken::new(),
+            join_handle: spawn(async {}),
+            peer_tracker_info_watcher: peer_tracker_rx,
+            local_peer_id: PeerId::random(),
+        };
+
+        let handle = crate::test_utils::MockP2pHandle {
+            cmd_tx,
+            cmd_rx,
+            header_sub_tx: None,
+            peer_tracker_tx,
+        };
+
+        (p2p, handle)
+    }
+
+    pub(crate) async fn header_session_run(
+        p2p: &P2p,
+        range: BlockRange,
+    ) -> Result<Vec<ExtendedHeader>> {
+        HeaderSession::new(range, p2p.cmd_tx.clone()).run().await
+    }
+}
